@@ -51,7 +51,7 @@ def make_scratch():
 
 def san_env(extra=None):
     env = os.environ.copy()
-    env["ASAN_OPTIONS"] = "detect_leaks=1:abort_on_error=0:exitcode=97:allocator_may_return_null=1:malloc_context_size=12"
+    env["ASAN_OPTIONS"] = "detect_leaks=1:abort_on_error=0:exitcode=97:allocator_may_return_null=0:malloc_context_size=12:hard_rss_limit_mb=3000:max_allocation_size_mb=2000"
     env["UBSAN_OPTIONS"] = "print_stacktrace=1:halt_on_error=1:exitcode=96"
     env["TSAN_OPTIONS"] = "halt_on_error=1:exitcode=95:second_deadlock_stack=1"
     env["VERIF_SCRATCH"] = env.get("VERIF_SCRATCH", "")
@@ -95,6 +95,41 @@ def run_enum_shard(spec):
     return run_shard_generic(spec, cmd, env, out, marker)
 
 
+def run_fuzz_shard(spec):
+    """libFuzzer campaign: fresh corpus dir (optionally the committed seed corpus), pinned -seed/-runs"""
+    ex = spec["extra"]
+    out = os.path.join(spec["scratch"], spec["name"] + ".json")
+    marker = os.path.join(spec["scratch"], spec["name"] + ".marker")
+    fail = os.path.join(spec["scratch"], spec["name"] + ".fail")
+    corpus = os.path.join(spec["scratch"], spec["name"] + "_corpus")
+    os.makedirs(corpus, exist_ok=True)
+    seeded = False
+    seeds = os.path.join(VERIF, "fuzzseeds", ex["target"])
+    # even shards start from the committed seed corpus, odd shards from an empty one
+    if os.path.isdir(seeds) and spec["shard"] % 2 == 0:
+        for f in sorted(os.listdir(seeds)):
+            shutil.copy(os.path.join(seeds, f), os.path.join(corpus, f))
+        seeded = True
+    env = san_env({"VERIF_SCRATCH": spec["scratch"], "VERIF_FUZZ_TARGET": ex["target"], "VERIF_FUZZ_OUT": out, "VERIF_FUZZ_FAIL": fail,
+                   "VERIF_FUZZ_MARKER": marker, "VERIF_FUZZ_PROP": ex.get("prop", "C15")})
+    cmd = [spec["binary"], corpus, "-seed=%d" % (spec["seed"] % 2000000000 + 1), "-runs=%d" % spec["cases"], "-max_len=%d" % ex.get("max_len", 256),
+           "-artifact_prefix=" + os.path.join(spec["scratch"], spec["name"] + "_art_"), "-rss_limit_mb=4096", "-malloc_limit_mb=2048", "-timeout=30",
+           "-print_final_stats=1", "-reduce_inputs=1", "-len_control=50"]
+    d = os.path.join(VERIF, "fuzzseeds", ex["target"] + ".dict")
+    if os.path.exists(d):
+        cmd.append("-dict=" + d)
+    res = run_shard_generic(spec, cmd, env, out, marker)
+    res["fuzz_seeded"] = seeded
+    rc = res.get("returncode")
+    st = res.get("stats")
+    # libFuzzer: 70 timeout, 71 oom = load noise, never a violation
+    if rc in (70, 71) and not (st and st.get("failed")):
+        res["ok"] = True
+        res["noise"] = "libFuzzer rc=%s (timeout/oom artifact ignored)" % rc
+        res["marker_case"] = None
+    return res
+
+
 def run_shard_generic(spec, cmd, env, out, marker):
     t0 = time.time()
     res = dict(name=spec["name"], job=spec["job"], cmd=" ".join(cmd), rc_params=env.get("RC_PARAMS", ""))
@@ -128,7 +163,7 @@ def run_shard_generic(spec, cmd, env, out, marker):
     return res
 
 
-SHARD_RUNNERS = {"pbt": run_pbt_shard, "enum": run_enum_shard}
+SHARD_RUNNERS = {"pbt": run_pbt_shard, "enum": run_enum_shard, "fuzz": run_fuzz_shard}
 
 
 def register_engine(name, fn):
@@ -141,7 +176,7 @@ def replay_case(replay_bin, text, scratch, tag="r"):
     with open(p, "w") as f:
         f.write(text)
     try:
-        r = subprocess.run([replay_bin, p], env=san_env({"VERIF_SCRATCH": scratch}), capture_output=True, timeout=120)
+        r = subprocess.run([replay_bin, p], env=san_env({"VERIF_SCRATCH": scratch}), capture_output=True, timeout=60)
         return r.returncode, (r.stdout.decode("utf-8", "replace") + r.stderr.decode("utf-8", "replace"))
     except subprocess.TimeoutExpired:
         return None, "timeout"
@@ -262,7 +297,7 @@ def job_targets(job):
         return job.get("targets", [])
     fe = job.get("frontend", job["engine"])
     t = [(fe, job["executor"], job.get("config", "san"))]
-    t.append(("replay", job["executor"], job.get("config", "san")))
+    t.append(("replay", job["executor"], job.get("replay_config", job.get("config", "san"))))
     return t
 
 
@@ -431,11 +466,18 @@ def _run_check(pid, p, tier, seed, jobs, findings, scratch, t0):
             for k in ("work_max",):
                 if st.get(k):
                     pj[k] = max(pj.get(k, 0), st[k])
+            if st.get("work_sum"):
+                pj["work_total"] = pj.get("work_total", 0) + st["work_sum"]
+            if st.get("inapplicable"):
+                pj["outside_domain_skipped"] = pj.get("outside_domain_skipped", 0) + st["inapplicable"]
+            if "fuzz_seeded" in r:
+                pj["shards_with_seed_corpus"] = pj.get("shards_with_seed_corpus", 0) + (1 if r["fuzz_seeded"] else 0)
             for k, v in st.get("extra", {}).items() if isinstance(st.get("extra"), dict) else []:
                 pj[k] = pj.get(k, 0) + v if isinstance(v, (int, float)) else v
         hashes |= r.get("hashes", set())
         exe, config = j["executor"], j.get("config", "san")
-        replay_bin = bins.get(("replay", exe, config))
+        replay_bin = bins.get(("replay", exe, j.get("replay_config", config)))
+        config = j.get("replay_config", config)
         if r.get("timeout"):
             broken.append("shard %s timed out (inconclusive)" % r["name"])
             continue
